@@ -134,7 +134,66 @@ def p_mixed(r, pid):
     return {"id": pid, "source": "mixed", "files": [{"name": "module_mix" + EXT[lang], "lang": lang, "text": text}], "config": base_config(r)}
 
 
-MAKERS = {"nesting": p_nesting, "magic": p_magic, "dry": p_dry, "srp": p_srp, "rust": p_rust, "ignore": p_ignore, "docs": p_docs, "mixed": p_mixed}
+# statement-level idioms the pattern linters look for (several statements that belong together: a loop and the `return` after it,
+# an initialisation and the loop that fills it, a check and the use it guards ...).  The documented examples do not cover every
+# detector branch (e.g. the any() / all() / filter-map / takewhile loops of collection-pipeline), so the idioms are listed here;
+# whether a snippet is reported is irrelevant for the invariance check, what matters is that adjacent statements are present.
+IDIOMS = {
+    "py": [
+        "def has_negative{n}(values):\n    for value in values:\n        if value < 0:\n            return True\n    return False",
+        "def all_positive{n}(values):\n    for value in values:\n        if value <= 0:\n            return False\n    return True",
+        "def cleaned{n}(values):\n    result = []\n    for value in values:\n        stripped = value.strip()\n        if stripped:\n            result.append(stripped)\n    return result",
+        "def leading{n}(values):\n    taken = []\n    for value in values:\n        if value < 0:\n            break\n        taken.append(value)\n    return taken",
+        "def only_files{n}(paths):\n    for path in paths:\n        if not path.is_file():\n            continue\n        handle(path)",
+        "def join_all{n}(items):\n    result = \"\"\n    for item in items:\n        result += str(item)\n    return result",
+        "def scan{n}(lines):\n    hits = []\n    for line in lines:\n        if re.match(r\"^a+b\", line):\n            hits.append(line)\n    return hits",
+        "def lookup{n}(table, key):\n    if key in table:\n        return table[key]\n    return None",
+        "def name_of{n}(obj):\n    if hasattr(obj, \"name\"):\n        return obj.name\n    return \"\"",
+        "def first{n}(items):\n    if len(items) > 0:\n        return items[0]\n    return None",
+        "def read_it{n}(path):\n    if os.path.exists(path):\n        with open(path) as f:\n            return f.read()\n    return \"\"",
+        "def ratio{n}(a, b):\n    if b != 0:\n        return a / b\n    return 0",
+        "def as_int{n}(text):\n    if text.isdigit():\n        return int(text)\n    return 0",
+        "def width{n}(value):\n    if isinstance(value, str):\n        return len(value)\n    return 0",
+        "def tidy{n}(value):\n    if value is not None:\n        return value.strip()\n    return \"\"",
+        "def fetch_and_log{n}(db, key):\n    value = db.get(key)\n    db.touch(key)\n    return value",
+        "class Shape{n}:\n    def __init__(self, w, h):\n        self.w = w\n        self.h = h\n\n    def get_area(self):\n        return self.w * self.h\n\n    def name(self):\n        return \"shape\"",
+        "class Tools{n}:\n    def double(self, x):\n        return x * 2\n\n    def triple(self, x):\n        return x * 3",
+        "def report{n}(rows):\n    for row in rows:\n        print(row)\n    if verbose:\n        print(\"done\")",
+        "def status_text{n}(status):\n    if status == \"open\":\n        return 1\n    elif status == \"closed\":\n        return 2\n    elif status == \"pending\":\n        return 3\n    return 0",
+        "def deep{n}(a, b, c):\n    if a:\n        for x in b:\n            while c:\n                if x:\n                    return 4242\n    return 0",
+    ],
+    "ts": [
+        "function hasNegative{n}(values: number[]): boolean {\n  for (const v of values) {\n    if (v < 0) {\n      return true;\n    }\n  }\n  return false;\n}",
+        "function joinAll{n}(items: string[]): string {\n  let result = \"\";\n  for (const item of items) {\n    result += item;\n  }\n  return result;\n}",
+        "function syncUser{n}(id: number) {\n  const user = fetchUser(id);\n  updateCache(user);\n  return user;\n}",
+        "function report{n}(rows: string[]) {\n  for (const row of rows) {\n    console.log(row);\n  }\n}",
+        "function statusText{n}(status: string): number {\n  if (status === \"open\") {\n    return 1;\n  } else if (status === \"closed\") {\n    return 2;\n  }\n  return 4242;\n}",
+        "class Shape{n} {\n  constructor(private w: number) {}\n  area() {\n    return this.w * 31;\n  }\n  name() {\n    return \"shape\";\n  }\n}",
+        "function deep{n}(a: boolean, b: number[]) {\n  if (a) {\n    for (const x of b) {\n      while (x) {\n        if (x > 2) {\n          return 77;\n        }\n      }\n    }\n  }\n  return 0;\n}",
+    ],
+    "rs": [
+        "fn risky{n}(s: Option<i32>) -> i32 {\n    let v = s.unwrap();\n    let w = s.expect(\"present\");\n    v + w\n}",
+        "fn cloner{n}(items: Vec<String>) -> usize {\n    let mut n = 0;\n    for it in items.iter() {\n        let c = it.clone();\n        n += c.len();\n    }\n    n\n}",
+        "async fn loader{n}() -> String {\n    let text = std::fs::read_to_string(\"a.txt\").unwrap();\n    std::thread::sleep(std::time::Duration::from_secs(1));\n    text\n}",
+        "#[cfg(test)]\nmod tests{n} {\n    #[test]\n    fn check_it() {\n        let v: Option<i32> = Some(1);\n        assert_eq!(v.unwrap(), 4242);\n    }\n}",
+        "fn deep{n}(a: bool, b: Vec<i32>) -> i32 {\n    if a {\n        for x in b {\n            while x > 0 {\n                if x > 2 {\n                    return 77;\n                }\n            }\n        }\n    }\n    0\n}",
+    ],
+}
+
+
+def p_idioms(r, pid):
+    lang = r.choice(["py", "py", "py", "ts", "rs"])
+    pool = IDIOMS[lang]
+    picks = r.sample(pool, min(len(pool), r.choice([2, 3, 4])))
+    head = {"py": ["import os", "import re", ""], "ts": [], "rs": []}[lang]
+    parts = ["\n".join(head)] if head and r.random() < 0.7 else []
+    for j, sn in enumerate(picks):
+        parts.append(sn.replace("{n}", str(j)))
+    text = ("\n\n\n" if lang == "py" else "\n\n").join(x for x in parts if x) + "\n"
+    return {"id": pid, "source": "idioms", "files": [{"name": "idioms_mod" + EXT[lang], "lang": lang, "text": text}], "config": base_config(r)}
+
+
+MAKERS = {"nesting": p_nesting, "magic": p_magic, "dry": p_dry, "srp": p_srp, "rust": p_rust, "ignore": p_ignore, "docs": p_docs, "mixed": p_mixed, "idioms": p_idioms}
 
 
 def programs(seed: int, n_gen: int, all_docs: bool = True):
@@ -142,7 +201,7 @@ def programs(seed: int, n_gen: int, all_docs: bool = True):
     if all_docs:
         for j, ex in enumerate(doc_examples()["examples"]):
             out.append(p_docs(rng_for(seed, "C13", "doc", j), f"doc{j}", ex))
-    weights = ["nesting"] * 3 + ["magic"] * 3 + ["dry"] * 4 + ["srp"] * 3 + ["rust"] * 3 + ["ignore"] * 3 + ["mixed"] * 4
+    weights = ["nesting"] * 3 + ["magic"] * 3 + ["dry"] * 4 + ["srp"] * 3 + ["rust"] * 3 + ["ignore"] * 3 + ["mixed"] * 4 + ["idioms"] * 4
     for i in range(n_gen):
         r = rng_for(seed, "C13", "prog", i)
         for _ in range(5):
